@@ -88,7 +88,7 @@ func mutators(p *Path) []*Event {
 }
 
 func ruleIterUpdateTable(c *Check, rule string) {
-	name := fnIterUpd + "$1"
+	name := fnIterUpd + "$callback"
 	fn, paths := c.walkFn(rule, name, WalkConfig{})
 	if paths == nil {
 		return
